@@ -86,6 +86,11 @@ func genAcc(t *rapid.T) AccCase {
 	// the element reduce would extract: groups 1.. joined by the array separator; {0} is the whole element
 	for i := range c.Base.Contexts {
 		gs := c.Base.Contexts[i].Groups
+		for j := 1; j < len(gs); j++ {
+			// a part of the element cannot hold the separator itself (it would shift every later group, and a
+			// value pinned for one size position would land in another)
+			gs[j] = pbt.S(strings.ReplaceAll(string(gs[j]), "\x00", "\x01"))
+		}
 		if len(gs) > 0 {
 			gs[0] = pbt.S(strings.Join(pbt.Strs(gs[1:]), "\x00"))
 		}
@@ -110,6 +115,16 @@ func checkAcc(c AccCase) error {
 	}
 	if c.Base.Obs == nil {
 		c.Base.Obs = pbt.NewObs()
+	}
+	for _, cj := range c.Base.Contexts {
+		for j := 1; j < len(cj.Groups); j++ {
+			if strings.Contains(string(cj.Groups[j]), "\x00") {
+				// outside the domain (see genAcc): the groups of the harness' context and the parts of the
+				// element would no longer be the same values
+				pbt.Exclude("reduce-context:group-value-holds-the-separator")
+				return nil
+			}
+		}
 	}
 	what := strings.Join(c.templates(), " | ")
 	return monitored(what, caseHeapLimit, caseTimeLimit, func() error {
